@@ -30,6 +30,11 @@ claim("C17", "guarded-by inference: lockset analysis + thread-region ownership o
       "Decides a guarded-by discipline sufficient for race freedom of loopState, plugin.runningStep, foreach.runningStep, goroutine-captured locals and package-level variables (C17.R1-R3). "
       "It is a sufficient discipline, not a race detector: races inside dependencies and happens-before arguments the discipline does not see are not decided.", NOTE)
 
+claim("C05", "must-pass-through pairing rules (deploy/close, Add/go/Done/Wait, cancel/Wait, context/cancel) over SSA CFGs and the repo call graph",
+      "Decides the resource-pairing disciplines: schema probe closes its deployment on every path, every go statement is accounted on a WaitGroup whose Add dominates it and that is waited, "
+      "closers cancel then wait on every return, Execute registers terminate-all, contexts are released, sub-runs and deployments get the step context (C05.R1,R3-R7; R2 by path exploration). "
+      "That deployer.Plugin.Close really stops a container and goroutines inside dependencies are not decided.", NOTE)
+
 ALL = ["C%02d" % i for i in range(1, 21)]
 for pid in ALL:
     if pid not in P:
